@@ -1,6 +1,269 @@
-(* C13_Proofs.v — lemmas about the model of hook dispatch. *)
+(* C13_Proofs.v — lemmas about the model of hook dispatch: one hook phase. *)
 From Verif Require Import Base C13_Model.
 Open Scope Z_scope.
+
+Definition len {A} (l : list A) : Z := Z.of_nat (length l).
+
+Lemma len_app {A} (a b : list A) : len (a ++ b) = len a + len b.
+Proof. unfold len. rewrite app_length. lia. Qed.
+Lemma len_nonneg {A} (a : list A) : 0 <= len a.
+Proof. unfold len. lia. Qed.
+Lemma len_cons {A} (x : A) (a : list A) : len (x :: a) = 1 + len a.
+Proof. unfold len. cbn [length]. lia. Qed.
+
+(* no failing invocation number in [lo, hi) *)
+Definition no_fail (lo hi : Z) (fails : list Z) : bool :=
+  negb (existsb (fun f => (lo <=? f) && (f <? hi)) fails).
+
+Lemma no_fail_empty : forall lo fails, no_fail lo lo fails = true.
+Proof.
+  intros lo fails. unfold no_fail. induction fails as [|f r IH]; cbn; [reflexivity|].
+  replace ((lo <=? f) && (f <? lo)) with false by (symmetry; apply andb_false_iff; lia).
+  exact IH.
+Qed.
+
+Lemma no_fail_split : forall lo mid hi fails, lo <= mid -> mid <= hi ->
+  no_fail lo hi fails = no_fail lo mid fails && no_fail mid hi fails.
+Proof.
+  intros lo mid hi fails H1 H2. unfold no_fail. induction fails as [|f r IH]; cbn; [reflexivity|].
+  rewrite !negb_orb in *. rewrite IH.
+  destruct (lo <=? f) eqn:A; destruct (f <? hi) eqn:B; destruct (f <? mid) eqn:C; destruct (mid <=? f) eqn:D;
+    cbn; try lia; destruct (negb _); destruct (negb _); reflexivity.
+Qed.
+
+Lemma no_fail_one : forall k fails, no_fail k (k + 1) fails = negb (memz k fails).
+Proof.
+  intros k fails. unfold no_fail, memz. f_equal. induction fails as [|f r IH]; cbn; [reflexivity|].
+  rewrite IH. f_equal. destruct (Z.eqb_spec k f); [subst; apply andb_true_iff; lia | apply andb_false_iff; lia].
+Qed.
+
+Lemma hooks_of_app : forall a b, hooks_of (a ++ b) = hooks_of a ++ hooks_of b.
+Proof.
+  induction a as [|e a IH]; intro b; cbn; [reflexivity|].
+  destruct e; cbn; rewrite IH; reflexivity.
+Qed.
+
+Lemma is_nil_app_cons {A} (l : list A) (x : A) : is_nil (l ++ [x]) = false.
+Proof. destruct l; reflexivity. Qed.
+
+(* ---------------------------------------------------------------- record keys *)
+Definition keys (s : S) : list (Z * bool) := map (fun r => (m_tag r, m_nil r)) (s_recs s).
+Definition rkeys (l : list mrec) : list (Z * bool) := map (fun r => (m_tag r, m_nil r)) l.
+
+Lemma set_nth_val_keys : forall l i v,
+  map (fun r => (m_tag r, m_nil r)) (set_nth_val i v l) = map (fun r => (m_tag r, m_nil r)) l.
+Proof.
+  induction l as [|r l IH]; intros [|i] v; cbn; try reflexivity.
+  f_equal. apply IH.
+Qed.
+
+(* a struct handed over by value is outside the theorems (SetColumn / callMethod answer ErrInvalidValue) *)
+Definition wf_shape (sh : shape) : Prop :=
+  match sh_cont sh with CStruct => sh_outer_ptr sh = true | _ => True end.
+
+(* the frame of one step: everything but counter, error, trace, record values, payload *)
+Definition same_frame (s s' : S) : Prop :=
+  s_pool s' = s_pool s /\ s_ntx s' = s_ntx s /\ s_started s' = s_started s /\ s_tbl s' = s_tbl s
+  /\ s_snap s' = s_snap s /\ keys s' = keys s.
+
+Lemma same_frame_refl : forall s, same_frame s s.
+Proof. intro s. repeat split. Qed.
+Lemma same_frame_trans : forall a b c, same_frame a b -> same_frame b c -> same_frame a c.
+Proof.
+  intros a b c (A1 & A2 & A3 & A4 & A5 & A6) (B1 & B2 & B3 & B4 & B5 & B6).
+  repeat split; congruence.
+Qed.
+
+Lemma set_column_frame : forall c i v s, wf_shape (c_shape c) ->
+  let s' := set_column c i v s in
+  same_frame s s' /\ s_k s' = s_k s /\ s_err s' = s_err s /\ s_tr s' = s_tr s.
+Proof.
+  intros c i v s W. unfold set_column, wf_shape in *.
+  destruct (c_dest c); destruct (sh_cont (c_shape c)); try rewrite W; cbn -[set_nth_val];
+    unfold same_frame, keys; cbn -[set_nth_val]; rewrite ?set_nth_val_keys; repeat split; reflexivity.
+Qed.
+
+(* ---------------------------------------------------------------- one invocation *)
+Record step_ok (c : cx) (s s' : S) (evs : list hev) : Prop := mk_step_ok {
+  so_frame : same_frame s s';
+  so_hooks : hooks_of (s_tr s') = hooks_of (s_tr s) ++ evs;
+  so_k : s_k s' = s_k s + len evs;
+  so_err : is_nil (s_err s') = is_nil (s_err s) && no_fail (s_k s) (s_k s') (c_fails c)
+}.
+
+Lemma step_ok_refl : forall c s, step_ok c s s [].
+Proof.
+  intros c s. split.
+  - apply same_frame_refl.
+  - rewrite app_nil_r. reflexivity.
+  - unfold len. cbn. lia.
+  - rewrite no_fail_empty, andb_true_r. reflexivity.
+Qed.
+
+Lemma step_ok_trans : forall c s1 s2 s3 e1 e2,
+  step_ok c s1 s2 e1 -> step_ok c s2 s3 e2 -> step_ok c s1 s3 (e1 ++ e2).
+Proof.
+  intros c s1 s2 s3 e1 e2 [F1 H1 K1 E1] [F2 H2 K2 E2]. split.
+  - eapply same_frame_trans; eassumption.
+  - rewrite H2, H1, app_assoc. reflexivity.
+  - rewrite K2, K1, len_app. lia.
+  - rewrite E2, E1. rewrite (no_fail_split (s_k s1) (s_k s2) (s_k s3)).
+    + rewrite andb_assoc. reflexivity.
+    + rewrite K1. pose proof (len_nonneg e1). lia.
+    + rewrite K2. pose proof (len_nonneg e2). lia.
+Qed.
+
+Lemma invoke_ok : forall c h tag i s, wf_shape (c_shape c) ->
+  step_ok c s (invoke c h tag i s) [(h, ty_id (c_ty c), tag)].
+Proof.
+  intros c h tag i s W. unfold invoke.
+  set (s1 := set_k (s_k s + 1) (emit (THook h (ty_id (c_ty c)) tag (s_pool s)) s)).
+  assert (B1 : same_frame s s1 /\ s_k s1 = s_k s + 1 /\ s_err s1 = s_err s
+               /\ hooks_of (s_tr s1) = hooks_of (s_tr s) ++ [(h, ty_id (c_ty c), tag)]).
+  { subst s1. cbn. rewrite hooks_of_app. cbn. repeat split. }
+  destruct B1 as (F1 & K1 & E1 & H1).
+  set (s2 := if is_before_save_hook h && memz (s_k s) (c_sets c) then set_column c i (1000 + s_k s) s1 else s1).
+  assert (B2 : same_frame s s2 /\ s_k s2 = s_k s + 1 /\ s_err s2 = s_err s
+               /\ hooks_of (s_tr s2) = hooks_of (s_tr s) ++ [(h, ty_id (c_ty c), tag)]).
+  { subst s2. destruct (is_before_save_hook h && memz (s_k s) (c_sets c)).
+    - destruct (set_column_frame c i (1000 + s_k s) s1 W) as (F & K & E & T).
+      split; [exact (same_frame_trans _ _ _ F1 F)|].
+      split; [congruence|]. split; [congruence|]. rewrite T. exact H1.
+    - repeat split; assumption. }
+  destruct B2 as (F2 & K2 & E2 & H2).
+  destruct (memz (s_k s) (c_fails c)) eqn:M.
+  - split.
+    + destruct F2 as (A1 & A2 & A3 & A4 & A5 & A6). repeat split; cbn; assumption.
+    + cbn. exact H2.
+    + cbn. rewrite K2. unfold len. cbn. lia.
+    + cbn. rewrite is_nil_app_cons. rewrite K2, no_fail_one, M. cbn. rewrite andb_false_r. reflexivity.
+  - split; try assumption.
+    rewrite K2, no_fail_one, M, E2. cbn. rewrite andb_true_r. reflexivity.
+Qed.
+
+(* ---------------------------------------------------------------- the closure *)
+Definition evs_of (t : ty) (hs : list hook) (tag : Z) : list hev :=
+  map (fun h => (h, ty_id t, tag)) (filter (flag t) hs).
+
+Lemma in_mset_ptr : forall t h, flag t h && in_mset VPtr (recv_of t h) = flag t h.
+Proof. intros t h. unfold flag. destruct (recv_of t h); reflexivity. Qed.
+
+Lemma fc_ptr_ok : forall c hs tag i s, wf_shape (c_shape c) ->
+  step_ok c s (snd (fc c hs VPtr tag i s)) (evs_of (c_ty c) hs tag)
+  /\ fst (fc c hs VPtr tag i s) = negb (is_nil (filter (flag (c_ty c)) hs)).
+Proof.
+  intros c hs tag i s W. revert s. induction hs as [|h hs IH]; intro s.
+  - cbn. split; [apply step_ok_refl | reflexivity].
+  - cbn [fc]. rewrite in_mset_ptr. unfold evs_of. cbn [filter].
+    destruct (flag (c_ty c) h) eqn:Fl.
+    + cbn [fst snd map]. split; [|reflexivity].
+      change ((h, ty_id (c_ty c), tag) :: map (fun h0 => (h0, ty_id (c_ty c), tag)) (filter (flag (c_ty c)) hs))
+        with ([(h, ty_id (c_ty c), tag)] ++ evs_of (c_ty c) hs tag).
+      eapply step_ok_trans; [apply invoke_ok; assumption | apply IH].
+    + apply IH.
+Qed.
+
+(* the phase has no value-receiver hook: offering the T value calls nothing *)
+Definition no_val (t : ty) (hs : list hook) : Prop :=
+  forall h, In h hs -> recv_of t h <> RVal.
+(* every declared hook of the phase is a value-receiver hook: offering the T value calls them all *)
+Definition all_val (t : ty) (hs : list hook) : Prop :=
+  forall h, In h hs -> recv_of t h <> RPtr.
+
+Lemma fc_val_none : forall c hs tag i s, no_val (c_ty c) hs -> fc c hs VVal tag i s = (false, s).
+Proof.
+  intros c hs tag i s N. induction hs as [|h hs IH]; [reflexivity|].
+  cbn [fc]. assert (A : flag (c_ty c) h && in_mset VVal (recv_of (c_ty c) h) = false).
+  { specialize (N h (or_introl eq_refl)). unfold flag. destruct (recv_of (c_ty c) h); try reflexivity. congruence. }
+  rewrite A. apply IH. intros h' Hin. apply N. right. exact Hin.
+Qed.
+
+Lemma fc_val_all : forall c hs tag i s, all_val (c_ty c) hs -> fc c hs VVal tag i s = fc c hs VPtr tag i s.
+Proof.
+  intros c hs tag i s A. revert s. induction hs as [|h hs IH]; intro s; [reflexivity|].
+  cbn [fc].
+  assert (E : in_mset VVal (recv_of (c_ty c) h) = in_mset VPtr (recv_of (c_ty c) h) \/ flag (c_ty c) h = false).
+  { specialize (A h (or_introl eq_refl)). unfold flag. destruct (recv_of (c_ty c) h) eqn:R; auto; congruence. }
+  assert (A' : all_val (c_ty c) hs) by (intros h' Hin; apply A; right; exact Hin).
+  destruct E as [E|E].
+  - rewrite E. destruct (flag (c_ty c) h && in_mset VPtr (recv_of (c_ty c) h)).
+    + rewrite IH by exact A'. reflexivity.
+    + apply IH. exact A'.
+  - rewrite E. cbn. apply IH. exact A'.
+Qed.
+
+(* ---------------------------------------------------------------- the loop *)
+Definition phase_events (t : ty) (hs : list hook) (tags : list Z) : list hev :=
+  flat_map (evs_of t hs) tags.
+
+Lemma loop_ok : forall c hs recs i s, wf_shape (c_shape c) ->
+  forallb (elem_addr (c_shape c)) recs = true ->
+  step_ok c s (loop c hs recs i s) (phase_events (c_ty c) hs (map m_tag recs)).
+Proof.
+  intros c hs recs. induction recs as [|r rs IH]; intros i s W A.
+  - cbn. apply step_ok_refl.
+  - cbn in A. apply andb_prop in A. destruct A as [A1 A2].
+    cbn [loop]. rewrite A1. cbn [map phase_events flat_map].
+    eapply step_ok_trans; [apply fc_ptr_ok; assumption | apply IH; assumption].
+Qed.
+
+(* ---------------------------------------------------------------- callMethod *)
+Definition addressable (sh : shape) (recs : list mrec) : Prop :=
+  wf_shape sh /\ forallb (elem_addr sh) recs = true
+  /\ match sh_cont sh with CStruct => exists r, recs = [r] | _ => True end.
+
+(* the exact condition under which the struct-value shortcut of callMethod is harmless *)
+Definition uniform_phase (sh : shape) (t : ty) (hs : list hook) : Prop :=
+  match sh_cont sh with CStruct => no_val t hs \/ all_val t hs | _ => True end.
+
+Lemma call_method_ok : forall c hs s,
+  addressable (c_shape c) (s_recs s) -> uniform_phase (c_shape c) (c_ty c) hs ->
+  step_ok c s (call_method c hs s) (phase_events (c_ty c) hs (map m_tag (s_recs s))).
+Proof.
+  intros c hs s (W & A & St) U. unfold call_method, uniform_phase in *.
+  destruct (sh_cont (c_shape c)) eqn:C.
+  - destruct St as [r ->]. cbn [map phase_events flat_map]. rewrite app_nil_r.
+    unfold wf_shape in W. rewrite C in W.
+    destruct U as [N|V].
+    + rewrite fc_val_none by exact N. rewrite W.
+      apply fc_ptr_ok. unfold wf_shape. rewrite C. exact W.
+    + rewrite fc_val_all by exact V.
+      destruct (fc_ptr_ok c hs (m_tag r) 0%nat s) as [OK CALLED]. { unfold wf_shape. rewrite C. exact W. }
+      destruct (fc c hs VPtr (m_tag r) 0 s) as [called s1] eqn:F. cbn [fst snd] in *.
+      destruct called.
+      * exact OK.
+      * rewrite W. exact OK.
+  - apply loop_ok; assumption.
+  - apply loop_ok; assumption.
+Qed.
+
+(* ---------------------------------------------------------------- a hook phase *)
+Definition phase_log (c : cx) (p : phase) (s : S) : list hev :=
+  if is_nil (s_err s) && negb (c_skip c) then phase_events (c_ty c) (fc_hooks p) (map m_tag (s_recs s)) else [].
+
+Lemma phase_events_no_flag : forall t hs tags, existsb (flag t) hs = false -> phase_events t hs tags = [].
+Proof.
+  intros t hs tags E. unfold phase_events, evs_of.
+  assert (F : filter (flag t) hs = []).
+  { induction hs as [|h hs IH]; [reflexivity|]. cbn in *. apply orb_false_iff in E. destruct E as [E1 E2].
+    rewrite E1. apply IH. exact E2. }
+  rewrite F. cbn. induction tags; [reflexivity|]. cbn. assumption.
+Qed.
+
+Lemma hooks_phase_ok : forall c p s,
+  addressable (c_shape c) (s_recs s) -> uniform_phase (c_shape c) (c_ty c) (fc_hooks p) ->
+  step_ok c s (hooks_phase c p s) (phase_log c p s).
+Proof.
+  intros c p s A U. unfold hooks_phase, phase_log.
+  destruct (is_nil (s_err s)) eqn:E; cbn [andb]; [|apply step_ok_refl].
+  destruct (c_skip c); cbn [negb andb]; [apply step_ok_refl|].
+  destruct (existsb (flag (c_ty c)) (fc_hooks p)) eqn:G; cbn [andb].
+  - destruct p; cbn [andb]; try (apply call_method_ok; assumption).
+    destruct (s_recs s) eqn:R; cbn [is_nil negb].
+    + cbn. apply step_ok_refl.
+    + rewrite <- R in *. apply call_method_ok; assumption.
+  - rewrite phase_events_no_flag by exact G. apply step_ok_refl.
+Qed.
 
 Lemma hooks_phase_skip : forall c p s, c_skip c = true -> hooks_phase c p s = s.
 Proof.
